@@ -50,28 +50,58 @@ SIG_TOL = "utils-hardcoded-tolerances"
 # ------------------------------------------------------------------------------------------
 # implementation side
 # ------------------------------------------------------------------------------------------
-def build_network(rows, limits, phases, vt, rt, partial=None):
-    """build a real ChargingNetwork; rows: list of coefficient lists (may be empty)"""
+EXOTIC_IDS = ["S-10", "S-9", "s-2", "B", "a", "10", "9", "", "Z_1", "S-11", "b", "007"]
+
+
+def station_ids_of(net):
+    """the ids the harness registered, in registration order (kept on the object; never taken from
+    network.station_ids, whose order is part of what is being checked)"""
+    return net._verif_ids
+
+
+def build_network(rows, limits, phases, vt, rt, partial=None, sc=None):
+    """build a real ChargingNetwork; rows: list of coefficient lists (may be empty).
+    sc (scenario): ids (station ids in registration order), voltages, rereg (indices registered first with
+    wrong voltage / phase and then re-registered under the same id before any constraint exists)"""
     from acnportal.acnsim import ChargingNetwork, Current
     from acnportal.acnsim.models import EVSE
+    sc = sc or {}
     # vt is None: default-constructed network (the tolerances are then read back from it)
     net = ChargingNetwork() if vt is None else ChargingNetwork(violation_tolerance=vt, relative_tolerance=rt)
     n = len(phases)
+    ids = list(sc.get("ids") or ["S%d" % i for i in range(n)])
+    volts = list(sc.get("voltages") or [208] * n)
+    rereg = set(sc.get("rereg") or [])
     for i in range(n):
-        net.register_evse(EVSE("S%d" % i, max_rate=1e9, min_rate=-1e9), 208, phases[i])
+        if i in rereg:
+            net.register_evse(EVSE(ids[i], max_rate=16, min_rate=0), 999, phases[i] + 77)
+        else:
+            net.register_evse(EVSE(ids[i], max_rate=1e9, min_rate=-1e9), volts[i], phases[i])
+    for i in sorted(rereg):
+        net.register_evse(EVSE(ids[i], max_rate=1e9, min_rate=-1e9), volts[i], phases[i])
+    net._verif_ids = ids
     for j, row in enumerate(rows):
-        d = {"S%d" % i: row[i] for i in range(n) if not (partial and partial[j] and row[i] == 0)}
+        d = {ids[i]: row[i] for i in range(n) if not (partial and partial[j] and row[i] == 0)}
         if not d:
-            d = {"S0": row[0]}
+            d = {ids[0]: row[0]}
         net.add_constraint(Current(d), limits[j], "c%d" % j)
     return net
+
+
+def attach_twin(net):
+    """the network reloaded from its own JSON (+ an Interface on it), rebuilt after every mutation"""
+    from acnportal.acnsim import ChargingNetwork
+    rel = ChargingNetwork.from_json(net.to_json())
+    rel._verif_ids = net._verif_ids
+    net._verif_twin = (rel, make_interface(rel))
 
 
 def apply_op(net, op):
     """one network mutation through the public API (station ids S<i>)"""
     from acnportal.acnsim import Current
-    n = len(net.station_ids)
-    cur = lambda row: Current({"S%d" % i: row[i] for i in range(n)})
+    ids = station_ids_of(net)
+    n = len(ids)
+    cur = lambda row: Current({ids[i]: row[i] for i in range(n)})
     if op["op"] == "update":          # same name: remove + add at the end, name kept
         net.update_constraint(op["name"], cur(op["row"]), op["limit"])
     elif op["op"] == "readd":         # remove, then add under the same name
@@ -133,24 +163,56 @@ def make_interface(net):
     return Interface(sim)
 
 
-def run_impl(net, itf, X, T, mapping, ovt=None, ort=None):
+def typed_rates(r, code):
+    """the same rates in another container / element type (values unchanged)"""
+    import numpy as np
+    if code == 1:
+        return np.array(r, dtype=float)
+    if code == 2:
+        return tuple(r)
+    if code == 3:
+        return [int(v) if float(v).is_integer() else v for v in r]
+    if code == 4:
+        return [np.float64(v) for v in r]
+    return list(r)
+
+
+def run_impl(net, itf, X, T, mapping, ovt=None, ort=None, var=None):
     """X: list of N rows of T floats.  mapping: list of (station index, [rates]).  ovt/ort: explicit
     tolerance arguments given to the network / interface calls (None = use the network's).
+    var: call variants — int_dtype (integer-valued X passed as an int array), map_types (container / element
+    types of the mapping values), hold_info (the InfrastructureInfo fetched earlier for this network state is
+    reused), poke_info (the caller overwrites the info it got, afterwards).
     Returns outputs for both modes."""
+    import copy
     import numpy as np
     from acnportal.algorithms.utils import infrastructure_constraints_feasible as icf
     from acnportal.acnsim.interface import InvalidScheduleError
+    var = var or {}
     n = len(X)
+    ids = station_ids_of(net)
     Xa = np.array(X, dtype=float).reshape(n, T)
-    out = {}
+    if var.get("int_dtype") and all(float(v).is_integer() for r in X for v in r):
+        Xa = Xa.astype(int)
+    Xa_before = Xa.copy()
+    out = {"notes": []}
     try:
-        info = itf.infrastructure_info()
+        held = getattr(net, "_verif_info", None)
+        if var.get("hold_info") and held is not None:
+            info = held
+        else:
+            info = itf.infrastructure_info()
+            net._verif_info = info
         shape = [int(info.constraint_matrix.shape[0]), int(info.constraint_matrix.shape[1])]
     except Exception as e:  # noqa
         info, shape = None, None
         out["info_error"] = type(e).__name__
     out["info_shape"] = shape
-    load = {("S%d" % i if i < n else "ZZ%d" % i): list(r) for i, r in mapping}
+    codes = var.get("map_types") or []
+    load = {(ids[i] if i < n else "ZZ%d" % i): typed_rates(r, codes[k % len(codes)] if codes else 0)
+            for k, (i, r) in enumerate(mapping)}
+    load_before = {k: [float(x) for x in v] for k, v in load.items()}
+
     def guarded(o, key, f, default):
         """an implementation call that raises something unexpected is recorded, never propagated"""
         try:
@@ -161,6 +223,8 @@ def run_impl(net, itf, X, T, mapping, ovt=None, ort=None):
             o[key] = default
             o.setdefault("raised", []).append("%s: %s" % (key, type(e).__name__))
 
+    twin = getattr(net, "_verif_twin", None)
+    held_cur = None
     for lin in (False, True):
         o = {}
         guarded(o, "net", lambda: bool(net.is_feasible(Xa, linear=lin, violation_tolerance=ovt, relative_tolerance=ort)), False)
@@ -169,21 +233,87 @@ def run_impl(net, itf, X, T, mapping, ovt=None, ort=None):
                                                              relative_tolerance=ort)), False)
         except InvalidScheduleError:
             o["iface"] = None
+        evt = net.violation_tolerance if ovt is None else ovt
+        ert = net.relative_tolerance if ort is None else ort
         if info is not None:
-            guarded(o, "alg_same", lambda: bool(icf(Xa, info, linear=lin,
-                                                    violation_tolerance=net.violation_tolerance if ovt is None else ovt,
-                                                    relative_tolerance=net.relative_tolerance if ort is None else ort)), False)
+            guarded(o, "alg_same", lambda: bool(icf(Xa, info, linear=lin, violation_tolerance=evt, relative_tolerance=ert)), False)
             guarded(o, "alg_default", lambda: bool(icf(Xa, info, linear=lin)), False)
         else:
             o["alg_same"] = o["alg_default"] = None
         if len(net.magnitudes):
             def cur_f():
                 cur = net.constraint_current(Xa, linear=lin)
+                if not lin:
+                    nonlocal held_cur
+                    held_cur = (cur, np.array(cur, copy=True))
                 return [[[float(z.real), float(z.imag)] for z in row] for row in cur]
             guarded(o, "cur", cur_f, [])
         else:
             o["cur"] = []
+        if twin is not None:
+            rel, ritf = twin
+            r = {}
+            guarded(r, "net", lambda: bool(rel.is_feasible(Xa, linear=lin, violation_tolerance=ovt, relative_tolerance=ort)), False)
+            try:
+                guarded(r, "iface", lambda: bool(ritf.is_feasible(load, linear=lin, violation_tolerance=ovt,
+                                                                  relative_tolerance=ort)), False)
+            except InvalidScheduleError:
+                r["iface"] = None
+            guarded(r, "alg_same", lambda: bool(icf(Xa, ritf.infrastructure_info(), linear=lin,
+                                                    violation_tolerance=evt, relative_tolerance=ert)), False)
+            o["reload"] = r
+            if r.get("raised"):
+                o.setdefault("raised", []).extend("reloaded " + x for x in r["raised"])
         out["lin" if lin else "pha"] = o
+
+    # ---- side conditions observed on the same objects -------------------------------------------
+    notes = out["notes"]
+    try:
+        if not np.array_equal(Xa, Xa_before):
+            notes.append("a checker modified the schedule matrix it was given")
+        if {k: [float(x) for x in v] for k, v in load.items()} != load_before:
+            notes.append("Interface.is_feasible modified the mapping it was given")
+        if held_cur is not None and not np.array_equal(held_cur[0], held_cur[1]):
+            notes.append("the array returned by constraint_current changed after later calls")
+        if len(net.magnitudes) and T > 0:
+            # sub-selection arguments of constraint_current
+            names = list(net.constraint_index)
+            rows = [j for j in range(len(names)) if j % 2 == 0]
+            cols = [t for t in range(T) if t % 2 == 0]
+            full = net.constraint_current(Xa)
+            sub = net.constraint_current(Xa, constraints=[names[j] for j in rows], time_indices=cols)
+            if len(set(names)) == len(names) and not np.allclose(sub, full[rows][:, cols], rtol=1e-12, atol=1e-12):
+                notes.append("constraint_current(constraints=, time_indices=) is not the sub-matrix of the full result")
+        if twin is not None:
+            rel = twin[0]
+            same = dict(station_ids=list(rel.station_ids) == list(net.station_ids) == list(ids),
+                        phase_angles=bool(np.array_equal(rel._phase_angles, net._phase_angles)),
+                        voltages=bool(np.array_equal(rel._voltages, net._voltages)),
+                        constraint_matrix=bool(np.array_equal(rel.constraint_matrix, net.constraint_matrix)
+                                               if net.constraint_matrix is not None else rel.constraint_matrix is None),
+                        limits=bool(np.array_equal(rel.magnitudes, net.magnitudes)),
+                        constraint_index=list(rel.constraint_index) == list(net.constraint_index),
+                        tolerances=(rel.violation_tolerance, rel.relative_tolerance) == (net.violation_tolerance, net.relative_tolerance))
+            bad = [k for k, v in same.items() if not v]
+            if bad:
+                notes.append("network reloaded from its own JSON differs from the original in: " + ", ".join(bad))
+        if var.get("poke_info") and info is not None and info is not getattr(net, "_verif_info_poked", None):
+            # the caller owns the InfrastructureInfo it was handed: overwriting it must not reach the network
+            before = (net.is_feasible(Xa), None if net.constraint_matrix is None else net.constraint_matrix.copy(),
+                      net.magnitudes.copy())
+            mine = itf.infrastructure_info()
+            mine.constraint_limits[...] = 1e9
+            mine.constraint_matrix[...] = 0
+            mine.phases[...] = 0
+            after = net.is_feasible(Xa)
+            fresh = itf.infrastructure_info()
+            if after != before[0] or not np.array_equal(net.magnitudes, before[2]) or \
+                    (before[1] is not None and not np.array_equal(net.constraint_matrix, before[1])):
+                notes.append("overwriting a returned InfrastructureInfo changed the network")
+            if not np.array_equal(fresh.constraint_limits, net.magnitudes):
+                notes.append("overwriting a returned InfrastructureInfo changed what infrastructure_info() returns next")
+    except Exception as e:  # noqa
+        notes.append("side-condition probe raised %s: %s" % (type(e).__name__, str(e)[:100]))
     return out
 
 
@@ -281,10 +411,28 @@ def rand_network_spec(rng):
         else:
             limits.append(-float(rng.choice([1, 5, 1e-6])))
     vt, rt = rng.choice(TOLS)
-    return dict(rows=rows, limits=limits, phases=[float(p) for p in phases], vt=vt, rt=rt, partial=partial)
+    # scenario: station ids whose lexicographic order differs from the registration order (incl. the falsy
+    # id ""), heterogeneous voltages, stations re-registered before the constraints, JSON-reloaded twin
+    sc = dict(ids=None, voltages=None, rereg=[], reload=rng.random() < 0.35)
+    if rng.random() < 0.4:
+        sc["ids"] = rng.sample(EXOTIC_IDS, n)
+    if rng.random() < 0.5:
+        sc["voltages"] = [float(rng.choice([120, 208, 240, 277])) for _ in range(n)]
+    if rng.random() < 0.2:
+        sc["rereg"] = sorted(rng.sample(range(n), rng.choice([1, min(2, n)])))
+    return dict(rows=rows, limits=limits, phases=[float(p) for p in phases], vt=vt, rt=rt, partial=partial, sc=sc)
+
+
+def rand_var(rng):
+    """call variants for one schedule"""
+    return dict(int_dtype=rng.random() < 0.5, map_types=[rng.choice([0, 0, 1, 2, 3, 4]) for _ in range(3)],
+                hold_info=rng.random() < 0.5, poke_info=rng.random() < 0.15)
 
 
 def rand_schedule(rng, n, T):
+    if rng.random() < 0.08:
+        # integer-valued schedule (left unscaled by the caller; may be passed as an int array / int lists)
+        return [[float(rng.choice([0, 0, 6, 8, 16, 24, 32])) for _ in range(T)] for _ in range(n)]
     neg = rng.random() < 0.12
     X = []
     for i in range(n):
@@ -311,6 +459,8 @@ def place(rng, A, L, cis, vt, rt, X, T, focus_lin):
     """scale each column so that its most loaded constraint sits at a chosen distance from its limit"""
     if not A:
         return X, ["free"] * T
+    if X and T and all(float(v).is_integer() for r in X for v in r) and rng.random() < 0.6:
+        return X, ["integer"] * T
     kinds = []
     for t in range(T):
         col = [[X[i][t]] for i in range(len(X))]
@@ -404,16 +554,19 @@ def net_coq(A, L, cis, vt, rt):
 
 def case_coq(netc, T, X, mapping, lin, o, shape, ovt=None, ort=None):
     return ("{| c_net := %s; c_T := %d%%nat; c_X := %s; c_map := %s; c_linear := %s; c_ovt := %s; c_ort := %s;\n"
-            "   i_net := %s; i_iface := %s; i_alg_same := %s; i_alg_default := %s; i_cur := %s; i_info_shape := %s |}") % (
+            "   i_net := %s; i_iface := %s; i_alg_same := %s; i_alg_default := %s; i_cur := %s; i_info_shape := %s; i_reload := %s |}") % (
         netc, T, coq_list([coq_list([q(v) for v in r]) for r in X]),
         coq_list(["(%d%%nat, %s)" % (i, coq_list([q(v) for v in r])) for i, r in mapping]),
         coq_bool(lin), coq_opt(ovt, q), coq_opt(ort, q), coq_bool(o["net"]), coq_opt(o["iface"], coq_bool),
         coq_bool(bool(o["alg_same"])), coq_bool(bool(o["alg_default"])),
         coq_list([coq_list(["(%s, %s)" % (q(z[0]), q(z[1])) for z in row]) for row in o["cur"]]),
-        "None" if shape is None else "(Some (%d%%nat, %d%%nat))" % tuple(shape))
+        "None" if shape is None else "(Some (%d%%nat, %d%%nat))" % tuple(shape),
+        "None" if not o.get("reload") else "(Some (%s, %s, %s))" % (
+            coq_bool(o["reload"]["net"]), coq_opt(o["reload"]["iface"], coq_bool), coq_bool(bool(o["reload"]["alg_same"]))))
 
 
-def finish_cases(spec, A, L, phases, cis, X, T, mapping, mkind, colkinds, impl, exact_tie=False, ovt=None, ort=None):
+def finish_cases(spec, A, L, phases, cis, X, T, mapping, mkind, colkinds, impl, exact_tie=False, ovt=None, ort=None,
+                 var=None):
     """two case dicts (linear False / True) for one schedule"""
     netc = net_coq(A, L, cis, spec["vt"], spec["rt"])
     # effective tolerances of the network / interface / explicit algorithm-side calls
@@ -431,11 +584,12 @@ def finish_cases(spec, A, L, phases, cis, X, T, mapping, mkind, colkinds, impl, 
         if robust(cur, L, 1e-5, 1e-7) is None:
             amb = True
         inp = dict(A=A, L=L, phases=phases, vt=spec["vt"], rt=spec["rt"], ctor_default=bool(spec.get("ctor_default")),
+                   sc=spec.get("sc"), var=var,
                    ovt=ovt, ort=ort, X=X, T=T,
                    mapping=[[i, r] for i, r in mapping], linear=lin, exact_tie=exact_tie)
         c = dict(input=inp, impl=impl, coq=case_coq(netc, T, X, mapping, lin, o, impl["info_shape"], ovt, ort),
                  ambiguous=amb, nontrivial=True,
-                 kind="%s/%s/%s/%s%s" % ("lin" if lin else "pha", "tie" if exact_tie else "+".join(sorted(set(colkinds))),
+                 kind="%s/%s/%s/%s%s" % ("lin" if lin else "pha", "+".join(sorted(set(colkinds))),
                                          mkind, "deftol" if (vt, rt) == (1e-5, 1e-7) else "othertol",
                                          "" if ovt is None and ort is None else "-explicit"))
         c["sig"] = [A, L, phases, spec["vt"], spec["rt"], ovt, ort, X, inp["mapping"], lin]
@@ -460,9 +614,16 @@ def gen_tie_cases(rng):
     vt, rt = 2.0 ** -17, 2.0 ** -23
     lin_focus = rng.random() < 0.4
     cis = [(1.0, 0.0)] * n
+    jc = rng.randrange(m)
+    # one-ulp mode: the critical constraint is a single station with coefficient 1, so its current IS the
+    # schedule entry and the entry can be put exactly on / one ulp above / one ulp below limit + tolerance
+    ulp = rng.random() < 0.3
+    if ulp:
+        k = rng.randrange(n)
+        rows[jc] = [1.0 if i == k else 0.0 for i in range(n)]
+        X[k] = [abs(v) for v in X[k]]
     cur = currents_exact(rows, cis, X, T, lin_focus)
     # the critical constraint: largest |sum| below 64 (so that the absolute tolerance is the larger one)
-    jc = rng.randrange(m)
     s = max(abs(z[0]) for z in cur[jc])
     if not (F(1, 4) <= s < 60):
         return []
@@ -473,7 +634,12 @@ def gen_tie_cases(rng):
         else:
             limits.append(float(max(abs(z[0]) for z in cur[j]) + rng.choice([1, 8, 0.5])))
     variant = rng.choice(["on", "on", "above", "below"])
-    if variant != "on":
+    if ulp:
+        variant = rng.choice(["on", "ulp-above", "ulp-below"])
+        if variant != "on":
+            tcrit = max(range(T), key=lambda t: abs(cur[jc][t][0]))
+            X[k][tcrit] = math.nextafter(X[k][tcrit], math.inf if variant == "ulp-above" else 0.0)
+    elif variant != "on":
         # move one contributing entry of the critical column by 2^-10 (still exact)
         tcrit = max(range(T), key=lambda t: abs(cur[jc][t][0]))
         idx = [i for i in range(n) if rows[jc][i] != 0]
@@ -520,7 +686,51 @@ def corpus_cases():
     return out
 
 
+def other_process_cases(cases, k=12):
+    """re-run k recorded inputs in a SECOND process with another PYTHONHASHSEED; every boolean must come out
+    the same (mappings are dicts, ids are strings: nothing may depend on hash order)"""
+    import json
+    import os
+    import subprocess
+    import sys
+    pick = [c for c in cases if "crash" not in c["input"] and not c["input"].get("before")][:400:max(1, 400 // k)][:k]
+    if not pick:
+        return []
+    env = dict(os.environ, PYTHONHASHSEED="4242")
+    code = ("import sys, json, warnings; warnings.filterwarnings('ignore'); from harness import c06; "
+            "inps = json.load(sys.stdin); "
+            "print(json.dumps([c06.summary(c06.rerun(dict(i))) for i in inps]))")
+    from harness.core import ROOT
+    p = subprocess.run([sys.executable, "-c", code], input=json.dumps([c["input"] for c in pick], default=float), cwd=ROOT,
+                       env=env, stdout=subprocess.PIPE, stderr=subprocess.PIPE, text=True, timeout=120)
+    out = []
+    try:
+        got = json.loads(p.stdout.strip().splitlines()[-1])
+    except Exception:  # noqa
+        return [dict(input=dict(crash="second process"), impl=dict(crash="second process failed: " + p.stderr[-400:]),
+                     coq="", ambiguous=True, nontrivial=False, kind="crash", sig=["crash", "second process"])]
+    for c, g in zip(pick, got):
+        if g != summary(c["impl"]):
+            bad = dict(c, coq="", ambiguous=True, nontrivial=False, kind="other-process",
+                       impl=dict(c["impl"], notes=["a second process (PYTHONHASHSEED=4242) answers %s, this one %s" % (g, summary(c["impl"]))]))
+            out.append(bad)
+    return out
+
+
+def summary(impl):
+    return [[impl[k].get(f) for f in ("net", "iface", "alg_same", "alg_default")] for k in ("pha", "lin")]
+
+
 def gen_cases(rng, n, tier):
+    cases = gen_cases_(rng, n, tier)
+    try:
+        cases.extend(other_process_cases(cases))
+    except Exception as e:  # noqa
+        cases.append(crash_case("second process", e))
+    return cases
+
+
+def gen_cases_(rng, n, tier):
     cases = []
     crashes = 0
     try:
@@ -545,11 +755,12 @@ def gen_pair_block(rng):
     spec1 = rand_network_spec(rng)
     if not spec1["rows"]:
         spec1["rows"], spec1["limits"], spec1["partial"] = [[1.0] * len(spec1["phases"])], [40.0], [False]
+    spec1["sc"]["reload"] = False
     f = rng.choice([2.0, 0.5, 1.5, 3.0])
     spec2 = dict(spec1, limits=[x * f for x in spec1["limits"]])
     nets = []
     for sp in (spec1, spec2):
-        net = build_network(sp["rows"], sp["limits"], sp["phases"], sp["vt"], sp["rt"], sp["partial"])
+        net = build_network(sp["rows"], sp["limits"], sp["phases"], sp["vt"], sp["rt"], sp["partial"], sp["sc"])
         nets.append((sp, net))
     nets = [(sp, net, make_interface(net)) + read_back(net) for sp, net in nets]
     cases = []
@@ -583,11 +794,14 @@ def gen_block(rng):
         spec = rand_network_spec(rng)
         spec["ctor_default"] = (spec["vt"], spec["rt"]) == (1e-5, 1e-7) and rng.random() < 0.5
         if spec["ctor_default"]:
-            net = build_network(spec["rows"], spec["limits"], spec["phases"], None, None, spec["partial"])
+            net = build_network(spec["rows"], spec["limits"], spec["phases"], None, None, spec["partial"], spec["sc"])
             spec["vt"], spec["rt"] = float(net.violation_tolerance), float(net.relative_tolerance)
         else:
-            net = build_network(spec["rows"], spec["limits"], spec["phases"], spec["vt"], spec["rt"], spec["partial"])
+            net = build_network(spec["rows"], spec["limits"], spec["phases"], spec["vt"], spec["rt"], spec["partial"],
+                                spec["sc"])
         itf = make_interface(net)
+        if spec["sc"]["reload"]:
+            attach_twin(net)
         A, L, ph = read_back(net)
         cis = cis_of(ph)
         for _ in range(rng.choice([3, 5, 8])):
@@ -600,7 +814,8 @@ def gen_block(rng):
                 # including an explicit 0 / 0.0 for each tolerance separately and together
                 ovt, ort = rng.choice([(1e-3, None), (None, 1e-4), (1e-9, 1e-12), (1e-5, 1e-7), (0.25, 0.0), (None, 1e-2),
                                        (0.0, None), (None, 0.0), (0.0, 0.0), (0, 0), (0, None), (None, 0),
-                                       (0.0, 1e-7), (1e-5, 0.0), (0.0, None), (None, 0.0), (0.0, 0.0), (0, 0)])
+                                       (0.0, 1e-7), (1e-5, 0.0), (0.0, None), (None, 0.0), (0.0, 0.0), (0, 0),
+                                       (-1e-3, None), (None, -1e-4), (-0.5, -1e-3)])
                 zero_tol = ovt == 0 or ort == 0
             evt = spec["vt"] if ovt is None else ovt
             ert = spec["rt"] if ort is None else ort
@@ -613,8 +828,9 @@ def gen_block(rng):
                 if ok:
                     colkinds = colkinds + ["between-explicit-zero-and-network-tolerance"]
             mapping, mkind = make_mapping(rng, X, T)
-            impl = run_impl(net, itf, X, T, mapping, ovt, ort)
-            cases.extend(finish_cases(spec, A, L, ph, cis, X, T, mapping, mkind, colkinds, impl, ovt=ovt, ort=ort))
+            var = rand_var(rng)
+            impl = run_impl(net, itf, X, T, mapping, ovt, ort, var)
+            cases.extend(finish_cases(spec, A, L, ph, cis, X, T, mapping, mkind, colkinds, impl, ovt=ovt, ort=ort, var=var))
         # ---- mutate the network between queries, on the SAME Simulator / Interface objects: the interface
         # has already produced an InfrastructureInfo; all three checkers must follow the change
         if A and rng.random() < 0.7:
@@ -624,6 +840,9 @@ def gen_block(rng):
                 old_L = [float(x) for x in net.magnitudes]
                 op = rand_op(rng, net, step)
                 apply_op(net, op)
+                net._verif_info = None          # a held InfrastructureInfo is a snapshot of the old network
+                if spec["sc"]["reload"]:
+                    attach_twin(net)            # reload the network as it is now (mid-life round trip)
                 hist["ops"].append(op)
                 A2, L2, ph2 = read_back(net)
                 names2 = list(net.constraint_index)
@@ -638,8 +857,10 @@ def gen_block(rng):
                                           float(rhs_exact(old_L[jo], spec["vt"], spec["rt"])), focus)
                         colkinds = colkinds + ["between-old-and-new-limit"]
                     mapping, mkind = make_mapping(rng, X, T)
-                    impl = run_impl(net, itf, X, T, mapping)
-                    cs = finish_cases(spec, A2, L2, ph2, cis, X, T, mapping, mkind + "/after-" + op["op"], colkinds, impl)
+                    var = rand_var(rng)
+                    impl = run_impl(net, itf, X, T, mapping, var=var)
+                    cs = finish_cases(spec, A2, L2, ph2, cis, X, T, mapping, mkind + "/after-" + op["op"], colkinds, impl,
+                                      var=var)
                     for c in cs:
                         c["input"]["history"] = dict(A=hist["A"], L=hist["L"], ops=[dict(o) for o in hist["ops"]])
                     cases.extend(cs)
@@ -652,6 +873,8 @@ def gen_block(rng):
 def monitor(case):
     if "crash" in case["input"]:
         return "implementation raised %s" % case["impl"]["crash"]
+    if case.get("kind") == "other-process":
+        return case["impl"]["notes"][0]
     if case.get("ambiguous"):
         return None
     inp, impl = case["input"], case["impl"]
@@ -673,6 +896,13 @@ def monitor(case):
     for o in (P, Ln):
         if o.get("raised"):
             return "implementation raised %s" % ", ".join(o["raised"])
+    if impl.get("notes"):
+        return impl["notes"][0]
+    for o, name in ((P, "phasor"), (Ln, "linear")):
+        r = o.get("reload")
+        if r and (r["net"] != o["net"] or r["iface"] != o["iface"] or r["alg_same"] != o["alg_same"]):
+            return "network reloaded from its own JSON answers (%s: net %s, interface %s, algorithm side %s), the original (%s, %s, %s)" % (
+                name, r["net"], r["iface"], r["alg_same"], o["net"], o["iface"], o["alg_same"])
     # usable by schedulers: infrastructure_info is defined and has M x N shape
     if impl["info_shape"] is None:
         return "infrastructure_info() raised %s" % impl.get("info_error")
@@ -756,12 +986,13 @@ def rerun(inp):
         other = build_network(b["A"] or [], b["L"], b["phases"], b["vt"], b["rt"])
     h = inp.get("history")
     A0, L0 = (h["A"], h["L"]) if h else (A, L)
+    sc = inp.get("sc") or {}
     if inp.get("ctor_default"):
-        net = build_network(A0 or [], L0, ph, None, None)
+        net = build_network(A0 or [], L0, ph, None, None, sc=sc)
         # the tolerances are whatever the constructor of the tree under test chose
         inp["vt"], inp["rt"] = float(net.violation_tolerance), float(net.relative_tolerance)
     else:
-        net = build_network(A0 or [], L0, ph, inp["vt"], inp["rt"])
+        net = build_network(A0 or [], L0, ph, inp["vt"], inp["rt"], sc=sc)
     itf = make_interface(net)
     if h:
         # the recorded sequence on ONE Interface: fetch the info, mutate the network, fetch again ...
@@ -776,7 +1007,13 @@ def rerun(inp):
             other.is_feasible(np.zeros((len(ph), inp["T"])), linear=True)
         except Exception:  # noqa
             pass
-    return run_impl(net, itf, inp["X"], inp["T"], mapping, inp.get("ovt"), inp.get("ort"))
+    if sc.get("reload"):
+        attach_twin(net)
+    var = dict(inp.get("var") or {})
+    if var.get("hold_info"):
+        itf_info = itf.infrastructure_info()     # the info held from an earlier query on this network state
+        net._verif_info = itf_info
+    return run_impl(net, itf, inp["X"], inp["T"], mapping, inp.get("ovt"), inp.get("ort"), var)
 
 
 def replay(w):
